@@ -28,3 +28,48 @@ package util
 //@     invariant arr[i] <= target && (j < len(arr) ==> target < arr[j]) && target < arr[len(arr)-1]
 //@     invariant 0 <= mid && mid < len(arr)
 //@     decreases j - i
+
+//@ opaque func sortSlice[int]
+//@   ensures forall i, j :: 0 <= i && i < j && j < len(s) ==> s[i] <= s[j]
+//@   ensures forall i :: 0 <= i && i < len(s) ==> exists j :: 0 <= j && j < len(s) && old(s[j]) == s[i]
+//@   ensures forall j :: 0 <= j && j < len(s) ==> exists i :: 0 <= i && i < len(s) && s[i] == old(s[j])
+//@   ensures (forall a, b :: 0 <= a && a < b && b < len(s) ==> old(s[a]) != old(s[b])) ==> (forall a, b :: 0 <= a && a < b && b < len(s) ==> s[a] != s[b])
+//@   modifies s[_]
+//@   trusted "sort.Slice with the < comparator sorts ascending and permutes the elements"
+
+//@ func SortedKeys[int,int]
+//@   props C12
+//@   ensures[asc]    strictlyAsc(result) && len(result) == len(input)
+//@   ensures[sound]  forall j :: 0 <= j && j < len(result) ==> result[j] in input
+//@   ensures[compl]  forall k :: k in input ==> exists j :: 0 <= j && j < len(result) && result[j] == k
+//@   ensures[fresh]  len(result) > 0 ==> fresh(arrayOf(result))
+//@   modifies nothing
+//@   loop 1 "for k := range input"
+//@     invariant len(result) == count#1 && arrayOf(result) >= old(W)
+//@     invariant forall j :: 0 <= j && j < len(result) ==> result[j] in visited#1
+//@     invariant forall k :: k in visited#1 ==> k in input && exists j :: 0 <= j && j < len(result) && result[j] == k
+//@     invariant forall a, b :: 0 <= a && a < b && b < len(result) ==> result[a] != result[b]
+
+//@ pure runStart(m map[int]int, ks []int, i int) bool = i == 0 || m[ks[i-1]] != m[ks[i]]
+
+//@ func ExtractKeysWithDistinctValues
+//@   props C12
+//@   requires forall k :: k in input ==> input[k] != -1
+//@   ensures[C12.asc C01 C05]    strictlyAsc(result)
+//@   ensures[C12.subset C01 C05] forall j :: 0 <= j && j < len(result) ==> result[j] in input
+//@   ensures[C12.first]  forall k :: k in input ==> len(result) > 0 && result[0] <= k
+//@   ensures[C12.adjacent] forall j :: 1 <= j && j < len(result) ==> input[result[j-1]] != input[result[j]]
+//@   ensures[C12.runs]   forall k, j :: k in input && 0 <= j && j < len(result) && result[j] <= k && (j == len(result)-1 || k < result[j+1]) ==> input[result[j]] == input[k]
+//@   ensures[C12.nonempty C01 C05] len(input) > 0 ==> len(result) > 0
+//@   ensures[fresh] len(result) > 0 ==> fresh(arrayOf(result))
+//@   modifies nothing
+//@   loop 1 "for _, key := range keys"
+//@     invariant -1 <= rangeindex && rangeindex < len(keys) && (len(result) == 0 || arrayOf(result) >= old(W)) && (len(result) == 0 ==> cap(result) == 0)
+//@     invariant strictlyAsc(keys) && (len(result) == 0 || arrayOf(result) != arrayOf(keys))
+//@     invariant forall j :: 0 <= j && j < len(keys) ==> keys[j] in input
+//@     invariant forall k :: k in input ==> exists j :: 0 <= j && j < len(keys) && keys[j] == k
+//@     invariant (rangeindex == -1 ==> lastDistinctOutput == -1 && len(result) == 0) && (rangeindex >= 0 ==> lastDistinctOutput == input[keys[rangeindex]] && len(result) > 0)
+//@     invariant strictlyAsc(result) && (len(result) > 0 ==> result[len(result)-1] <= keys[rangeindex] && input[result[len(result)-1]] == input[keys[rangeindex]] && result[0] == keys[0])
+//@     invariant forall j :: 0 <= j && j < len(result) ==> result[j] in input
+//@     invariant forall j :: 1 <= j && j < len(result) ==> input[result[j-1]] != input[result[j]]
+//@     invariant forall i, j :: 0 <= i && i <= rangeindex && 0 <= j && j < len(result) && result[j] <= keys[i] && (j == len(result)-1 || keys[i] < result[j+1]) ==> input[result[j]] == input[keys[i]]
